@@ -19,5 +19,5 @@ for id in "$@"; do
 done
 git -C $WT checkout -q -- .
 # put the generated Lean tables back in step with /repo
-(cd $HERE && for g in translate/gen_*.py; do python3 $g >/dev/null 2>&1; done)
+[ -n "${SEED_WT:-}" ] || (cd $HERE && for g in translate/gen_*.py; do python3 $g >/dev/null 2>&1; done)
 exit $caught
